@@ -3,16 +3,7 @@
 //!   verif check <ID> --tier quick|thorough [--replay FILE]
 //!   verif list
 
-mod engine;
-mod lq;
-mod rv;
-mod gen;
-mod cal;
-mod ast;
-mod astgen;
-mod interp;
-mod progs;
-mod props;
+use verif::{cal, engine, fuzzdiff, lq, props, rv};
 
 use engine::{Ctx, Tier};
 
@@ -208,6 +199,40 @@ fn main() {
                 std::fs::write(format!("{dir}/tag{i:03}"), bytes).expect("write seed");
             }
         }
+        "diff-corpus" => {
+            // verif diff-corpus <dir> <n>: pseudo-random seed inputs for the `diff` target
+            let seed: u64 = std::env::var("VERIF_SEED").ok().and_then(|s| s.trim().parse::<i64>().ok()).map(|x| x as u64).unwrap_or(0);
+            fuzzdiff::seed_corpus(&args[2], args[3].parse().unwrap_or(300), seed).expect("write corpus");
+        }
+        "diff-stats" => {
+            // verif diff-stats <dir> [ID]: what the byte decoder makes of a corpus (classes per envelope)
+            engine::install_panic_hook();
+            let forced = args.get(3).cloned();
+            let mut classes: std::collections::BTreeMap<String, u64> = Default::default();
+            let (mut n, mut nt, mut fails) = (0u64, 0u64, 0u64);
+            let mut samples: Vec<serde_json::Value> = Vec::new();
+            let mut files: Vec<_> = std::fs::read_dir(&args[2]).expect("dir").filter_map(|e| e.ok()).map(|e| e.path()).collect();
+            files.sort();
+            for p in files {
+                let Ok(bytes) = std::fs::read(&p) else { continue };
+                let r = fuzzdiff::judge(&bytes, forced.as_deref(), samples.len() < 5);
+                n += 1;
+                if r.nontrivial {
+                    nt += 1;
+                }
+                if r.result.is_err() {
+                    fails += 1;
+                }
+                *classes.entry(format!("envelope {}", r.prop)).or_insert(0) += 1;
+                for c in r.classes {
+                    *classes.entry(c.to_string()).or_insert(0) += 1;
+                }
+                if samples.len() < 5 && !r.case.is_null() && r.nontrivial {
+                    samples.push(serde_json::json!({"property": r.prop, "sub": r.sub, "case": r.case}));
+                }
+            }
+            println!("{}", serde_json::to_string(&serde_json::json!({"inputs": n, "nontrivial": nt, "oracle_failures": fails, "classes": classes, "samples": samples})).unwrap());
+        }
         "fuzz-dict" => {
             for t in props::c01::TOKENS.iter().chain(props::c01::TAGS.iter()) {
                 if t.is_ascii() && !t.contains(char::is_control) && !t.contains('"') && !t.contains('\\') && !t.trim().is_empty() {
@@ -218,7 +243,11 @@ fn main() {
         "fuzz-case" => {
             // verif fuzz-case <parse|render> <artifact>: turn a libFuzzer artifact into a replay file body
             let bytes = std::fs::read(&args[3]).expect("read artifact");
-            let j = if args[2] == "parse" {
+            let j = if args[2] == "diff" {
+                // the envelope is part of the campaign's configuration, not of the bytes
+                let r = fuzzdiff::judge(&bytes, std::env::var("VERIF_DIFF_ENVELOPE").ok().filter(|s| !s.is_empty()).as_deref(), true);
+                serde_json::json!({"property": r.prop, "sub": r.sub, "case": r.case})
+            } else if args[2] == "parse" {
                 match std::str::from_utf8(&bytes) {
                     Ok(s) => serde_json::json!({"property": "C01", "sub": "soup", "case": {"src": s}}),
                     Err(_) => serde_json::json!(null),
